@@ -535,6 +535,10 @@ func (p *Program) keyDepth(v ssa.Value, d int) string {
 			case *ssa.FieldAddr:
 				// field loads of the receiver / parameters are treated as stable
 				return "*" + p.keyDepth(a, d+1)
+			case *ssa.IndexAddr:
+				// element loads: same slice, same index (elements are not reassigned between two
+				// reads in the code this is applied to; part of the purity assumption)
+				return "*" + p.keyDepth(a, d+1)
 			case *ssa.Global:
 				return "*global:" + a.String()
 			case *ssa.FreeVar:
@@ -549,6 +553,8 @@ func (p *Program) keyDepth(v ssa.Value, d int) string {
 		return p.keyDepth(x.X, d+1) + "." + fieldName(x.X.Type(), x.Field)
 	case *ssa.Field:
 		return p.keyDepth(x.X, d+1) + "." + fieldName(x.X.Type(), x.Field)
+	case *ssa.IndexAddr:
+		return p.keyDepth(x.X, d+1) + "[" + p.keyDepth(x.Index, d+1) + "]"
 	case *ssa.BinOp:
 		a, b := p.keyDepth(x.X, d+1), p.keyDepth(x.Y, d+1)
 		op := x.Op
